@@ -59,6 +59,14 @@ def auditLine (st : AuRun) (lineNo : Nat) (line : String) : Except String (AuRun
           let nf := (outs.filter (·.startsWith "PROPFAIL")).length
           let key := s!"audit:h={strClass rec.principal.hostname}:s={strClass rec.secret}:u={if rec.principal.user.isEmpty then 0 else 1}:t={min rec.principal.tags.length 2}:v={if rec.version == 0 then 0 else 1}"
           .ok ({ st with cases := st.cases + 1, fails := st.fails + nf, diverges := st.diverges + (outs.length - nf), cover := bump st.cover key }, outs)
+  | "auditfile" :: rest =>
+    -- the log shared by two writers, or rotated in place: every record is a whole line
+    let fs := fields rest
+    let get := fun k => (lookup fs k).getD ""
+    let ok := get "lines" == get "want" && get "wellformed" == "1" && get "nul" == "0"
+    let outs := if ok then [] else
+      [s!"PROPFAIL C06 record_wellformed line={lineNo} audit file, kind={get "kind"}: {get "lines"} whole records found, {get "want"} written; every line well-formed={get "wellformed"}; NUL bytes in the file={get "nul"} (records must be appended, one whole line each)"]
+    .ok ({ st with cases := st.cases + 1, fails := st.fails + outs.length, cover := bump st.cover s!"auditfile:{get "kind"}" }, outs)
   | "afterclose" :: rest =>
     -- the audit log has been closed (shutdown) and a request still arrives: fail closed - the
     -- call is refused, the database file and the log stay as they were
